@@ -196,7 +196,7 @@ func runC09Client(i int, cl c09Client, o gwOpts, tgt gwc.Target, from int) (err 
 	}
 	tag := []byte(fmt.Sprintf("client-%02d-%s|", i, sess.NewConnID()))
 	conn.Send(tsgu.Data(tag))
-	host := findHost(w.L["A"], from, tag, 10*time.Second)
+	host := findHost(w.L["A"], from, tag, 30*time.Second)
 	if lg, ok := conn.(*gwc.Legacy); ok && host == nil && lg.SleepSync && len(conn.Units()) == 0 {
 		return "" // the harness could not tell when the gateway had consumed the preamble: the first chunk may have been discarded with it
 	}
